@@ -368,6 +368,11 @@ func ruleC18(w *World) {
 			locks[fn] = true
 		}
 	}
+	// a worker split off an exported method: unknown to the rules, acquires the mutex itself, and is only ever
+	// entered with the mutex not held — it is judged like the exported method it was part of
+	selfLocking := func(fn *ssa.Function) bool {
+		return fn != nil && isNewHelper(fn) && locks[fn] && la.entry[fn] == lkNone
+	}
 	for _, fn := range fns {
 		if ctor[fn] {
 			continue
@@ -386,11 +391,14 @@ func ruleC18(w *World) {
 		instrsFlat(fn, func(ins ssa.Instruction) {
 			if c, ok := ins.(ssa.CallInstruction); ok {
 				if callee := c.Common().StaticCallee(); callee != nil && inSet[callee] && !isEntry(callee) && touchesTrans(callee, map[*ssa.Function]bool{}) {
+					if selfLocking(callee) {
+						return // a worker that takes the lock itself (checked as its own critical section below)
+					}
 					callsLocked = true
 				}
 			}
 		})
-		if !isEntry(fn) {
+		if !isEntry(fn) && !selfLocking(fn) {
 			w.check(len(acq) == 0, "C18.R2", key, fn.Pos(), "helper runs inside its caller's critical section and does not lock itself ("+lkName(la.entry[fn])+" on entry)", "helper "+fnKey(fn)+" acquires the mutex although it is called with the lock state "+lkName(la.entry[fn]))
 			continue
 		}
